@@ -341,6 +341,13 @@ def correspondence(run):
             reqs.append("trig %d %d %s %s" % (mc, len(kws), " ".join(kws), et))
             expect.append(imp)
             descs.append(("trig", mc, kws, et))
+        # the structural any-hit model `triggered` (the object of C19_triggered_iff_any) on default-only trees
+        if _expr_all_default(e):
+            for mc in (False, True):
+                reqs.append("simple %d %s" % (mc, et))
+                expect.append("ok %d" % bool(obj.triggered(require_mc_truth=mc)))
+                descs.append(("simple", mc, et))
+                run.count("default_only_trigger")
         # clear
         obj2 = py_eval(e)
         obj2.clear()
@@ -506,6 +513,14 @@ def search(run, deep):
         if any(x.is_hit or x.is_hit_mc_truth for x in obj) or still:
             run.fail_input("clear", {"a": etoks(a), "b": etoks(b), "c": etoks(c)},
                            what="clear() left an antenna hit")
+
+
+def _expr_all_default(e):
+    if e[0] == "T":
+        return _all_default(e)
+    if e[0] in "PI":
+        return _expr_all_default(e[1]) and _expr_all_default(e[2])
+    return all(_expr_all_default(x) for x in e[1])
 
 
 def _all_default(e):
